@@ -9,7 +9,7 @@ import tempfile
 import bytesgen as B
 
 
-def run_cli(data, pattern="picture_%d.raw"):
+def run_cli(data, pattern="picture_%d.raw", how="abs"):
     """run the REAL command (main) on a file holding `data`; -> (exit status, {filename: bytes}, stdout, stderr)"""
     from vc2_conformance.scripts.vc2_bitstream_validator import main
 
@@ -21,10 +21,20 @@ def run_cli(data, pattern="picture_%d.raw"):
         out, err = io.StringIO(), io.StringIO()
         with contextlib.redirect_stdout(out), contextlib.redirect_stderr(err):
             with B.Guard():
+                # the output pattern as an absolute path, as a bare relative name (current directory = d), or not given
+                # at all (the command's default pattern, again relative to the current directory)
+                cwd = os.getcwd()
                 try:
-                    code = main([src, "--output", os.path.join(d, pattern)])
+                    if how == "abs":
+                        argv = [src, "--output", os.path.join(d, pattern)]
+                    else:
+                        os.chdir(d)
+                        argv = [src, "--output", pattern] if how == "rel" else [src]
+                    code = main(argv)
                 except SystemExit as e:
                     code = e.code
+                finally:
+                    os.chdir(cwd)
         files = {}
         for fn in sorted(os.listdir(d)):
             if fn != "in.vc2":
@@ -59,11 +69,13 @@ def expected_files(pics, pattern):
     return out
 
 
-def violates(data, pattern="picture_%d.raw"):
+def violates(data, pattern="picture_%d.raw", how="abs"):
     res, pics = decode_direct(data)
     if res in ("OUT-OF-SCOPE", "TIMEOUT"):
         return None, res
-    code, files, out, err = run_cli(data, pattern)
+    if how == "default":
+        pattern = "picture_%d.raw"     # (the documented default of --output)
+    code, files, out, err = run_cli(data, pattern, how)
     if code == 3:
         return "exit status 3 (internal error): %s" % err.strip()[-200:], res
     if res == "OK":
@@ -110,7 +122,7 @@ class Prop(object):
     lean_modules = ["VC2.Props.C25"]
     status = "partial"
     rule = ("the 12 conformant seed streams (incl. two concatenated sequences of different frame size / bit depth / frame-vs-field coding) and their byte- and field-level mutations, "
-            "written to a file and run through the REAL command main([...]) with two output filename patterns: exit status vs the validator's verdict, never 3; "
+            "written to a file and run through the REAL command main([...]) with output filename patterns given as absolute paths, as bare relative names, or not at all (the default pattern): exit status vs the validator's verdict, never 3; "
             "the set of files written, numbered from 0, and each raw file's bytes and JSON metadata vs the decoder's callback arguments encoded by file_format")
     trusted = ["model ValidatorCli.lean (status decision, numbering) - its tie is this comparison of exit status and file names with the real command",
                "C02 (partial) for the unreachability of status 3; C23 for the file encoding", "argparse, the status line and the report text are not modelled"]
@@ -127,14 +139,14 @@ class Prop(object):
             cases.append((n, B.mutate(rng, d)))
         ctx.corr_names.append("REAL vc2-bitstream-validator main(): exit status, files written and their contents vs the decoder's own output")
         for i, (n, data) in enumerate(cases):
-            pattern = "picture_%d.raw" if i % 2 == 0 else "out-%03d_x.raw"
-            why, res = violates(data, pattern)
+            pattern, how = [("picture_%d.raw", "abs"), ("out-%03d_x.raw", "abs"), ("decoded_%d.raw", "rel"), ("picture_%d.raw", "default")][i % 4]
+            why, res = violates(data, pattern, how)
             ctx.evaluations += 1
             ctx.count("cli:%s" % ("skipped" if res in ("OUT-OF-SCOPE", "TIMEOUT") else ("OK" if res == "OK" else "rejected")))
             if res not in ("OUT-OF-SCOPE", "TIMEOUT"):
                 ctx.distinct.add(hash(data))
             if why and not self._bad:
-                self._bad = {"seed": n, "bytes": data.hex(), "pattern": pattern, "why": why}
+                self._bad = {"seed": n, "bytes": data.hex(), "pattern": pattern, "how": how, "why": why}
         ctx.traces += len(cases)
 
     def findings(self, ctx):
@@ -144,15 +156,17 @@ class Prop(object):
         rng = ctx.rng("search")
         seeds = B.seeds()
         for n, d in seeds:
-            why, res = violates(d)
-            if why:
-                return {"seed": n, "bytes": d.hex(), "pattern": "picture_%d.raw", "why": why}
-        for _ in range(ctx.n(1500, 20000)):
+            for pattern, how in (("picture_%d.raw", "abs"), ("decoded_%d.raw", "rel"), ("picture_%d.raw", "default")):
+                why, res = violates(d, pattern, how)
+                if why:
+                    return {"seed": n, "bytes": d.hex(), "pattern": pattern, "how": how, "why": why}
+        for i in range(ctx.n(1500, 20000)):
             n, d = rng.choice(seeds)
             m = B.mutate(rng, d)
-            why, res = violates(m)
+            pattern, how = [("picture_%d.raw", "abs"), ("decoded_%d.raw", "rel"), ("picture_%d.raw", "default")][i % 3]
+            why, res = violates(m, pattern, how)
             if why:
-                return {"seed": n, "bytes": m.hex(), "pattern": "picture_%d.raw", "why": why}
+                return {"seed": n, "bytes": m.hex(), "pattern": pattern, "how": how, "why": why}
         return None
 
     def replay(self, ctx, path):
@@ -162,7 +176,7 @@ class Prop(object):
         if not fi:
             print("replay names broken obligations only:", r.get("broken_obligations"))
             return 1
-        why, res = violates(bytes.fromhex(fi["bytes"]), fi.get("pattern", "picture_%d.raw"))
+        why, res = violates(bytes.fromhex(fi["bytes"]), fi.get("pattern", "picture_%d.raw"), fi.get("how", "abs"))
         print("replay ->", why or "property holds (%s)" % res)
         return 1 if why else 0
 
